@@ -298,8 +298,11 @@ def run_space(report, space, fn, workers=None, chunk=None, determinism_probe=3):
         except Exception:
             report.harness_error("space %s case %d raised in the harness:\n%s" % (space.name, i, traceback.format_exc()))
             break
-        ja = json.dumps(jsonable({k: v for k, v in a.items() if k != "extra"}), sort_keys=True)
-        jb = json.dumps(jsonable({k: v for k, v in b.items() if k != "extra"}), sort_keys=True)
+        # what must repeat is what the verdict rests on: the library's numbers (digest) and the violations.  How MANY seam calls were
+        # observed, or through which route a case was judged, may legitimately differ on the second evaluation (a fully keyed memo
+        # inside the library answers the repeat without passing the observed seam)
+        ja = json.dumps(jsonable({k: v for k, v in a.items() if k in ("digest", "viol")}), sort_keys=True)
+        jb = json.dumps(jsonable({k: v for k, v in b.items() if k in ("digest", "viol")}), sort_keys=True)
         if ja != jb:
             report.harness_error("nondeterministic observation on space %s case %d" % (space.name, i))
     if chunk is None:
